@@ -216,13 +216,18 @@ CLAIMED = {
              "compiling pattern, bounds and factor inside the declared type and format, level formats known together with the "
              "parameter's, format next to a numeric type or a value that is not a string/array of another type; decoded JSON values), "
              "for every oracle and numeric implementation with a total order and symmetric equality, instantiated for Flocq binary64; "
-             "the decision procedure is proved sound and evaluated on every case (about 40% of the quick run inside; typed Go carriers "
-             "are outside); nil is not validated, every other value is; the first-error exit of the six-validator chain is sound. "
+             "the decision procedure is proved sound and evaluated on every case (about 40% of the quick run inside); typed values "
+             "(int8..uint64 strictly inside +-2^53, float32, typed slices, []interface{} of such) are proved to be judged like the JSON "
+             "value they carry, for every numeric implementation exact on the numbers involved (exact_iface of C13 + carrier_iface), "
+             "on a decidable class (another 40% of the quick run; conditional: the Flocq instance is not proved to satisfy the two "
+             "interfaces, the check compares the binary64 model with the reading on every such case); nil is not validated, every other value is; the first-error exit of the six-validator chain is sound. "
              "Tie: result projection (verdict, (code,name) set, MatchCount, error count) on typed Go values built by reflection, plain "
              "and recycling; inside the class Go's verdict must equal the reading's; outside, failing-input search against an exact "
              "simple-schema oracle with recorded finding classes.",
         note=TB + "The agreement theorems are axiom-free; the binary64 instance inherits the stdlib real-number axioms, classic and functional extensionality through Flocq. "
-             "Outside the class (typed carriers, x-nullable, the recorded finding classes) the verdict is judged per case by the exact oracle (partial).",
+             "The typed-value theorems assume exact_iface and carrier_iface of the numeric implementation (satisfiable: C16_interfaces_satisfiable; true of "
+             "IEEE 754 binary64 but not proved of the Flocq instance). "
+             "Outside the classes (x-nullable, uniqueItems / enum over typed elements, the recorded finding classes) the verdict is judged per case by the exact oracle (partial).",
         tech="Rocq proof (agreement with the declarative reading on a decidable class, chain soundness, nil handling) + typed-value correspondence + exact oracle",
         ref="DESIGN.md 12/C16"),
     "C18": dict(
